@@ -322,7 +322,7 @@ def backend_sibling(repo, res):
 
 @rule(
     "TYPE-ROLES",
-    ["C09"],
+    ["C09", "C19"],
     "A, w, c are SCALAR; coordinate_dofs, weights, tables, J, x and reference-geometry symbols are REAL; "
     "loop indices, entity indices and permutations INT; Real/Imag yield REAL and conditions BOOL in both "
     "generators; complex nodes are removed exactly when the scalar type is real, with the same predicate "
@@ -544,17 +544,20 @@ def type_roles(repo, res):
     res.functions.add(fg.key)
     key = f"{fg.key}:complex.h"
     res.ob(key)
-    for nm in ("float32", "float64", "complex64", "complex128"):
+    from ..npmodel import DT as _DT, KIND as _KIND, name_of as _name_of
+    # the option is "dtype-like": the canonical names, NumPy's other spellings of the same types, dtype objects and scalar classes
+    spellings = ["float32", "float64", "complex64", "complex128", "cdouble", "csingle", "c16", "D", "F", "double", "f4", _DT("complex128"), _DT("float32"), "np.complex64"]
+    for nm in spellings:
         try:
             (pre, _post), _g = sample_file_output(repo, "C", nm)
         except _R as e:
-            res.fail(key, f"C file generator raises ({e.what}) for scalar type {nm}", repo.mod("ffcx.codegeneration.C.file").line(fg.node))
+            res.fail(key, f"C file generator raises ({e.what}) for scalar type {nm!r}", repo.mod("ffcx.codegeneration.C.file").line(fg.node))
             break
         has = any(re.search(r"#\s*include\s*<complex\.h>", t_) for t_ in pre)
-        if has != nm.startswith("complex"):
-            res.fail(key, f"for scalar type {nm} the generated files {'include' if has else 'do not include'} <complex.h>; it must be included exactly for complex scalar "
+        if has != (_KIND[_name_of(nm)] == "complexfloating"):
+            res.fail(key, f"for scalar type {nm!r} the generated files {'include' if has else 'do not include'} <complex.h>; it must be included exactly for complex scalar "
                      "types (`double _Complex`, `I`, `creal` are used by complex kernels; in real mode `I` would shadow user identifiers)",
-                     repo.mod("ffcx.codegeneration.C.file").line(fg.node))
+                     repo.mod("ffcx.codegeneration.C.file").line(fg.node), props=("C09", "C19"))
             break
     an = repo.mod("ffcx.analysis")
     f = an.func("_analyze_form")
